@@ -12,7 +12,7 @@ REGISTRY = {}
 class LoopContract:
     def __init__(self, invariants=(), variant=None, variant_lb=0, variant_dec=None, variant_dec_expr=None,
                  types=None, havoc=(), role='route', index=None, ghost_init=None, ghost_update=None,
-                 lemmas_end=()):
+                 lemmas_end=(), entry=(), step=(), hypotheses_end=(), independent=()):
         self.invariants = [(f'inv{i}', x) if isinstance(x, str) else tuple(x) for i, x in enumerate(invariants)]
         self.variant = variant
         self.variant_lb = variant_lb
@@ -25,6 +25,11 @@ class LoopContract:
         self.ghost_init = ghost_init
         self.ghost_update = ghost_update
         self.lemmas_end = list(lemmas_end)
+        self.entry = _clauses(entry, 'clause')             # proved once, when the loop is first reached
+        self.step = _clauses(step, 'clause')               # proved at the end of the body of an arbitrary iteration;
+        #                                                    head(e) = value of e at the head of that iteration
+        self.hypotheses_end = _clauses(hypotheses_end, 'hypothesis')   # ASSUMED at the end of the body (listed in evidence)
+        self.independent = list(independent)               # (label, [outputs], [sources]): dependency obligations
 
 
 class Clause:
@@ -110,7 +115,7 @@ class Contract:
     def __init__(self, key, params=None, requires=(), ensures=(), raises=None, loops=None, modifies=None,
                  modular=False, which=None, props=(), note='', setup=None, result_shape=None, witnesses=(),
                  assume_result=None, ghost=None, exc_ensures=None, max_instances=None, instance_filter=None,
-                 pre_state=None, trusted=False, reveal=()):
+                 pre_state=None, trusted=False, reveal=(), functional=None, inline=(), functional_outputs=1):
         self.key = key
         self.params = params or {}
         self.requires = _clauses(requires, 'requires')
@@ -131,6 +136,9 @@ class Contract:
         self.pre_state = pre_state
         self.trusted = trusted
         self.reveal = tuple(reveal)
+        self.functional = functional     # name of the uninterpreted function the (pure) result is an application of
+        self.functional_outputs = functional_outputs
+        self.inline = tuple(inline)      # callee keys whose bodies are executed here although they have modular contracts
 
     @property
     def relfile(self):
